@@ -297,6 +297,23 @@ fn comp_of(id: TypeId) -> Option<Comp>
     else { None }
 }
 
+fn conv_kind(kind: hooks::VerifCommandKind) -> Kind
+{
+    use hooks::VerifCommandKind as K;
+    match kind
+    {
+        K::SystemCommand => Kind::Manual,
+        K::SystemEvent => Kind::SysEvent,
+        K::Resource => Kind::Resource,
+        K::Insertion(id) => comp_of(id).map(Kind::Insertion).unwrap_or(Kind::Unknown),
+        K::Mutation(id) => comp_of(id).map(Kind::Mutation).unwrap_or(Kind::Unknown),
+        K::Removal(id) => comp_of(id).map(Kind::Removal).unwrap_or(Kind::Unknown),
+        K::Despawn => Kind::Despawn,
+        K::EntityEvent => Kind::EntityEvent,
+        K::Broadcast => Kind::Broadcast,
+    }
+}
+
 fn install_sink()
 {
     hooks::set_sink(Some(Box::new(|ev: hooks::VerifEvent| {
@@ -304,21 +321,11 @@ fn install_sink()
             use hooks::VerifEvent as V;
             let h = match ev
             {
+                V::ReactionScheduled{ kind, target, source } =>
+                    Hook::Scheduled{ kind: conv_kind(kind), target: c.name_of(target), source: c.name_of(source) },
                 V::CommandApply{ kind, target, source, data_entity } =>
                 {
-                    use hooks::VerifCommandKind as K;
-                    let kind = match kind
-                    {
-                        K::SystemCommand => Kind::Manual,
-                        K::SystemEvent => Kind::SysEvent,
-                        K::Resource => Kind::Resource,
-                        K::Insertion(id) => comp_of(id).map(Kind::Insertion).unwrap_or(Kind::Unknown),
-                        K::Mutation(id) => comp_of(id).map(Kind::Mutation).unwrap_or(Kind::Unknown),
-                        K::Removal(id) => comp_of(id).map(Kind::Removal).unwrap_or(Kind::Unknown),
-                        K::Despawn => Kind::Despawn,
-                        K::EntityEvent => Kind::EntityEvent,
-                        K::Broadcast => Kind::Broadcast,
-                    };
+                    let kind = conv_kind(kind);
                     Hook::CommandApply{
                         kind,
                         target: c.name_of(target),
@@ -393,6 +400,14 @@ fn marker(cmd: CmdId) -> impl FnOnce(&mut World) + Send + 'static
     move |w: &mut World| {
         let live = sample_live(w);
         push(TEv::Applied{ cmd, live });
+        with_ctx(|x| {
+            if let Some(p) = x.pending_creations.iter().position(|(c, _, _)| *c == cmd)
+            {
+                let (_, a, t) = x.pending_creations.remove(p);
+                if let Some(a) = a { x.actors_ready |= 1 << a; }
+                if let Some(t) = t { x.tokens_ready |= 1 << t; }
+            }
+        });
     }
 }
 
@@ -413,6 +428,10 @@ pub fn issue_op(c: &mut Commands, op: Op, cmd: CmdId, top: bool)
 
     // ops that allocate actors / tokens need the Commands first; record after.
     let record = |issued: Issued| {
+        if issued.new_actor.is_some() || issued.token.is_some()
+        {
+            with_ctx(|x| x.pending_creations.push((cmd, issued.new_actor, issued.token)));
+        }
         push(if top { TEv::Top{ cmd, issued } } else { TEv::Issue{ cmd, issued } });
     };
 
@@ -816,6 +835,7 @@ fn run_program(cfg: &Arc<Config>)
     for (i, v) in cfg.actors.iter().enumerate()
     {
         spawn_actor_world(app.world_mut(), i as ActorId, *v);
+        with_ctx(|x| x.actors_ready |= 1 << i);
     }
     install_sink();
 
